@@ -141,6 +141,21 @@ class Reaction(Object):
         forward_variable = self.forward_variable
         reverse_variable = self.reverse_variable
         old_id = self._id
+        if isinstance(value, str):
+            # Ask the solver interface about both new names before anything is
+            # renamed: some refusals (e.g. GLPK's length limit) come after the
+            # variable has been renamed on the Python side and cannot be undone.
+            for name in (
+                value,
+                "_".join(
+                    (
+                        value,
+                        "reverse",
+                        hashlib.md5(value.encode("utf-8")).hexdigest()[0:5],
+                    )
+                ),
+            ):
+                self.model.problem.Variable(name)
         self._id = value
         try:
             forward_variable.name = self.id
